@@ -190,6 +190,7 @@ import os
 import logging
 from collections.abc import Sequence
 from datetime import datetime
+from hashlib import sha1  # nosec
 
 import pyben
 
@@ -199,6 +200,30 @@ from torrentfile.mixins import ProgMixin
 from torrentfile.version import __version__ as version
 
 logger = logging.getLogger(__name__)
+
+
+def _last_piece_unpadded(path: str, piece_length: int) -> bytes:
+    """
+    Hash the final partial piece of a single file without padding.
+
+    Parameters
+    ----------
+    path : str
+        path to the file
+    piece_length : int
+        size of the pieces
+
+    Returns
+    -------
+    bytes
+        SHA1 digest of the last piece, or empty if the file ends on a boundary
+    """
+    tail = os.path.getsize(path) % piece_length
+    if not tail:
+        return b""
+    with open(path, "rb") as fd:
+        fd.seek(-tail, os.SEEK_END)
+        return sha1(fd.read()).digest()  # nosec
 
 
 class MetaFile:
@@ -629,6 +654,10 @@ class TorrentFileHybrid(MetaFile, ProgMixin):
         if os.path.isfile(self.path):
             info["file tree"] = {self.name: self._traverse(self.path)}
             info["length"] = os.path.getsize(self.path)
+            # a single file is not followed by padding in the v1 view
+            last = _last_piece_unpadded(self.path, self.piece_length)
+            if last:
+                self.pieces[-1] = last
 
         else:
             info["file tree"] = self._traverse(self.path)
@@ -736,6 +765,11 @@ class TorrentAssembler(MetaFile, ProgMixin):
         if os.path.isfile(self.path):
             info["file tree"] = {self.name: self._traverse(self.path)}
             info["length"] = os.path.getsize(self.path)
+            # a single file is not followed by padding in the v1 view
+            if self.hybrid:
+                last = _last_piece_unpadded(self.path, self.piece_length)
+                if last:
+                    self.pieces[-20:] = last
 
         else:
             info["file tree"] = self._traverse(self.path)
